@@ -24,11 +24,11 @@ Fixpoint fp (b : blk) : N :=
        end) ls h
   end.
 
-(* synthetic file content shared with the harness: byte i = (7 i + i / 251 + seed) mod 256 *)
+(* synthetic file content shared with the harness: byte i = (7 i + i / 251 + seed) mod 256; constant (seed mod 256) for seeds >= 1000 *)
 Fixpoint synth_from (i : N) (n : nat) (seed : N) : bytes :=
   match n with
   | O => []
-  | S n' => ((i * 7 + i / 251 + seed) mod 256) :: synth_from (i + 1) n' seed
+  | S n' => (if 1000 <=? seed then seed mod 256 else (i * 7 + i / 251 + seed) mod 256) :: synth_from (i + 1) n' seed
   end.
 Definition synth (seed : N) (n : nat) : bytes := synth_from 0 n seed.
 
